@@ -860,29 +860,33 @@ class Messenger(Connection):
 
         sock_tls = self.get_secure_socket()
         if sock_tls:
-            # Native (python ssl) validation for reference
-            try:
-                ssl.match_hostname(sock_tls.getpeercert(), peer_dnsid or peer_addr_str)
-            except ssl.CertificateError as err:
-                self._logger.warning('Native name validation failed: %s', err)
-
             # Verify TLS name bindings
             cert_der = sock_tls.getpeercert(True)
-            cert = x509.load_der_x509_certificate(cert_der, default_backend())
-            self._logger.debug('Peer certificate: %s', cert)
+            cert = None
+            if cert_der:
+                # Native (python ssl) validation for reference
+                try:
+                    ssl.match_hostname(sock_tls.getpeercert(), peer_dnsid or peer_addr_str)
+                except ssl.CertificateError as err:
+                    self._logger.warning('Native name validation failed: %s', err)
 
-            try:
-                ku_bits = cert.extensions.get_extension_for_oid(x509.oid.ExtensionOID.KEY_USAGE).value
-            except x509.ExtensionNotFound:
-                ku_bits = None
-            self._logger.debug('Peer KU: %s', ku_bits)
+                cert = x509.load_der_x509_certificate(cert_der, default_backend())
+                self._logger.debug('Peer certificate: %s', cert)
 
-            try:
-                eku_set = cert.extensions.get_extension_for_oid(x509.oid.ExtensionOID.EXTENDED_KEY_USAGE).value
-            except x509.ExtensionNotFound:
-                eku_set = None
-            self._logger.debug('Peer EKU: %s', eku_set)
-            # Example print(x509.ObjectIdentifier('1.3.6.1.5.5.7.3.1') in eku_set)
+                try:
+                    ku_bits = cert.extensions.get_extension_for_oid(x509.oid.ExtensionOID.KEY_USAGE).value
+                except x509.ExtensionNotFound:
+                    ku_bits = None
+                self._logger.debug('Peer KU: %s', ku_bits)
+
+                try:
+                    eku_set = cert.extensions.get_extension_for_oid(x509.oid.ExtensionOID.EXTENDED_KEY_USAGE).value
+                except x509.ExtensionNotFound:
+                    eku_set = None
+                self._logger.debug('Peer EKU: %s', eku_set)
+                # Example print(x509.ObjectIdentifier('1.3.6.1.5.5.7.3.1') in eku_set)
+            else:
+                self._logger.warning('Peer did not present a certificate')
 
             # Exact IPADDR-ID matching
             authn_ipaddrid = match_id(peer_ipaddrid, cert, x509.IPAddress, self._logger, 'IPADDR-ID')
